@@ -113,6 +113,12 @@ def c03(run):
     s2 = replay_tables(run, tables, 3 if t else 2, "ite")
     nontriv += s2["cases"]
     rs = record_and_validate(run, 7 if t else 6, "random", 6000 if t else 700, "bin,not,ite", "rand")
+    # beyond the exhaustive bound: random operands over 4 and 5 variables (symbols far apart)
+    record_and_validate(run, 4, "random", 12000 if t else 1500, "bin,not,ite", "rand_nv4")
+    record_and_validate(run, 5, "random", 8000 if t else 1000, "bin,ite", "rand_nv5")
+    # one variable beyond the exhaustive bound, densely: uniformly random operand pairs over 4 variables
+    # (defects that need 4 variables were seen to affect as few as 1 in 10^5 pairs)
+    record_and_validate(run, 4, "uniform", 2000000 if t else 400000, "bin", "uniform_nv4", shards=16)
     if t:
         record_and_validate(run, 4, "allwf", 0, "not", "not_nv4", shards=16)
     run.nontrivial = nontriv - 2 * 256 - 16  # minus cases with a constant first operand (counted by rows)
@@ -130,6 +136,8 @@ def c04(run):
     if t:
         mc_bdd(run, "C04", 4, xv=4, emit=False, timeout=7200)
     rs = record_and_validate(run, 7 if t else 6, "random", 6000 if t else 800, "quant", "rand")
+    record_and_validate(run, 4, "random", 12000 if t else 2000, "quant", "rand_nv4")
+    record_and_validate(run, 5, "random", 8000 if t else 1200, "quant", "rand_nv5")
     run.nontrivial = s["cases"] // 2
     run.exhaustive = True
 
@@ -146,6 +154,17 @@ def c05(run):
     if t:
         mc_bdd(run, "C05c", 3, lmax=2, emit=False, name="mc_C05c_nv3", timeout=7200)
     record_and_validate(run, 6, "random", 4000 if t else 500, "cc,cl", "rand")
+    record_and_validate(run, 3, "random", 6000 if t else 1200, "cc,cl", "rand_nv3")
+    # the formula language's counting forms ([..] = / <= / >= / < / > constant or list; constants beyond every
+    # list length): the builder formulas of MC_Lang that contain a counting node, evaluated by the real solver
+    import checks_lang
+    path, cases = checks_lang.lang_cases(run, t)
+    counting = [c for c in cases if '"cc"' in json.dumps(c["t"]) or '"cv"' in json.dumps(c["t"])]
+    cpath = os.path.join(os.path.dirname(path), "counting_cases.ndjson")
+    with open(cpath, "w") as fh:
+        for c in counting:
+            fh.write(json.dumps(c) + "\n")
+    checks_lang.replay_lang(run, cpath, "counting_formulas", {"C01"})
     run.nontrivial = s["cases"] + s2["cases"] - 16 - 21
     run.exhaustive = True
     run.assumptions += ["bounds beyond +-1000 are clamped for TLC's 32-bit integers (sound: every list is shorter)"]
